@@ -90,11 +90,12 @@ StoreRows(isa, rows, w, ty, D) ==
           IN IF T # {} THEN {Mn(T)} ELSE IF U # {} THEN {Mn(U), 0} ELSE {0} : S \in ShapeSets(isa, rows, w, D) }
 
 \* ---------------------------------------------------------------- results
-Unknown(np) == [unk |-> TRUE, tp |-> 0, lat |-> 0, lw |-> 0, pr |-> Zeros(np), uo |-> << >>]
+\* lu: the latency is FLAGGED as unknown (lt_unknown) - exactly when no latency is known, never for a known latency of 0
+Unknown(np) == [unk |-> TRUE, lu |-> TRUE, tp |-> 0, lat |-> 0, lw |-> 0, pr |-> Zeros(np), uo |-> << >>]
 \* an entry may declare no throughput / latency (-1): the value is then 0; the instruction counts as
 \* unknown only if both are missing
 NonNeg(x) == IF x < 0 THEN 0 ELSE x
-OwnResult(m, e) == [unk |-> (e.tp < 0 /\ e.lat < 0), tp |-> NonNeg(e.tp), lat |-> NonNeg(e.lat), lw |-> NonNeg(e.lat),
+OwnResult(m, e) == [unk |-> (e.tp < 0 /\ e.lat < 0), lu |-> (e.lat < 0), tp |-> NonNeg(e.tp), lat |-> NonNeg(e.lat), lw |-> NonNeg(e.lat),
                     pr |-> Row(e.u, 2, m.np), uo |-> e.u]
 
 \* does the form store at all?  (AArch64: an operand that is read and written only because its
@@ -115,7 +116,7 @@ Composed(m, T, ins, e, ty, lr, sr, stores) ==
       ldu == IF IsLoad(ins) THEN (IF lr = 0 THEN T.ldd ELSE T.ld[lr].u) ELSE << >>
       stu == IF stores THEN (IF sr = 0 THEN T.std ELSE T.st[sr].u) ELSE << >>
       data == AddRows(Row(ldu, IF m.hasldm THEN tr.lm ELSE 2, m.np), Row(stu, IF m.hasstm THEN tr.sm ELSE 2, m.np))
-  IN [unk |-> FALSE,
+  IN [unk |-> FALSE, lu |-> (e.lat < 0),
       tp |-> Mx(e.tp, MaxSeq(data)),
       lat |-> e.lat + (IF IsLoad(ins) THEN tr.lat ELSE 0),
       lw |-> e.lat,
@@ -152,7 +153,7 @@ Alone(m, ins) == { x[1] : x \in StepSet(m, Tables(m), ins, {}) }
 
 \* observed result o agrees with specified result r
 SameUops(a, b) == BagOf(a) = BagOf(b)
-Agrees(r, o) == /\ r.unk = o.unk /\ r.tp = o.tp /\ r.lat = o.lat /\ r.lw = o.lw
+Agrees(r, o) == /\ r.unk = o.unk /\ r.lu = o.lu /\ r.tp = o.tp /\ r.lat = o.lat /\ r.lw = o.lw
                 /\ r.pr = o.pr /\ SameUops(r.uo, o.uo)
 
 \* ---------------------------------------------------------------- following a recorded kernel
@@ -169,6 +170,7 @@ Follow(m, kernel, obs, D) == FollowFrom(m, kernel, obs, D, 1, {Tables(m)})
 FieldClause(m, kernel, obs, k) ==
   LET R == Alone(m, kernel[k]) o == obs[k] IN
   IF \A r \in R : r.unk # o.unk THEN (IF o.unk THEN "flagged-unknown" ELSE "not-flagged-unknown")
+  ELSE IF \A r \in R : r.lu # o.lu THEN (IF o.lu THEN "latency-flagged-unknown" ELSE "latency-not-flagged-unknown")
   ELSE IF \A r \in R : ~SameUops(r.uo, o.uo) THEN "uops"
   ELSE IF \A r \in R : r.pr # o.pr THEN "pressure"
   ELSE IF \A r \in R : r.tp # o.tp THEN "throughput"
